@@ -52,8 +52,8 @@ ASSUMPTIONS = [
     "min(3 s, call limit) instead of 20 s (typical cost 5-20 ms)",
 ]
 PROFILE = {
-    "quick": dict(examples=450, shards=16, budget_s=100),
-    "thorough": dict(examples=9000, shards=16, budget_s=1000),
+    "quick": dict(examples=600, shards=16, budget_s=110),
+    "thorough": dict(examples=8000, shards=16, budget_s=1100),
 }
 
 NAN = float("nan")
